@@ -3,8 +3,8 @@
 # runs the quick checks, reverts.  Prints one line per property.
 set -u
 name=$1; shift
-cd /repo; git diff --quiet || { echo "/repo has uncommitted changes"; exit 2; }
-git apply /verif/seeded/$name/patch.diff || { echo "PATCH-DOES-NOT-APPLY to /repo"; exit 2; }
+R=${VERIF_REPO:-/repo}; cd $R; git diff --quiet || { echo "$R has uncommitted changes"; exit 2; }
+git apply /verif/seeded/$name/patch.diff || { echo "PATCH-DOES-NOT-APPLY to $R"; exit 2; }
 cd /verif
 for prop in "$@"; do
   t0=$(date +%s)
@@ -12,4 +12,4 @@ for prop in "$@"; do
   nv=$(grep -c "^VIOLATION" build/seed_${name}_$prop.log)
   echo "SEED $name vs $prop: exit=$rc violations=$nv wall=$(( $(date +%s) - t0 ))s  $(grep '^VIOLATION' build/seed_${name}_$prop.log | head -1 | cut -c1-260)"
 done
-git -C /repo checkout -- .
+git -C $R checkout -- .
